@@ -6,6 +6,7 @@
 mod checks;
 mod eng_codec;
 mod eng_flood;
+mod eng_threads;
 mod eng_soup;
 mod heapmeter;
 mod eng_hpack;
